@@ -19,10 +19,13 @@ VALUES = {
     "b": [10, 20, 30],
     "a": ["x", "y", "z"],
     "c": [0.5, 1.5, 2.5],
+    # distinct floats that a tolerance-based comparison would confuse
+    "d": [1e-9, 2e-9, 4e-9],
+    "e": [2.4e9, 2.4e9 + 5e3, 2.4e9 + 1e4],
 }
 
 
-def make_grid(lengths, order=("b", "a", "c"), as_array=()):
+def make_grid(lengths, order=("b", "a", "c", "e", "d"), as_array=()):
     """lengths: dict name -> length (1..3) of the unpacked parameters.
     Returns (params_dict, unpacked_names_in_insertion_order)."""
     d = {}
@@ -54,9 +57,9 @@ def keep_going_family():
 
 def eval_keep_going(spec, merged_sum, rep):
     kind, v = spec
-    if kind == "rep":
+    if kind in ("rep", "rep_np"):
         return bool((v >> ((rep - 1) % 4)) & 1) if rep <= 4 else True
-    if kind == "sum":
+    if kind in ("sum", "sum_np"):
         return merged_sum < v
     if kind == "true":
         return True
@@ -97,7 +100,11 @@ class ScriptedRunner(R.SimulationRunner):
 
     def _keep_going(self, current_params, current_sim_results, current_rep):
         s = current_sim_results["v"][-1].get_result()
-        return eval_keep_going(self.keep_spec, s, current_rep)
+        r = eval_keep_going(self.keep_spec, s, current_rep)
+        if self.keep_spec[0].endswith("_np"):
+            # what a user's `errors < max_errors` on numpy-valued results returns
+            return np.bool_(r)
+        return r
 
 
 def _plain(d):
